@@ -57,8 +57,27 @@ def label(e, env):
         except Unrecognised:
             pass
         try:
-            arms = sorted("%s=>%s" % (v, label(a["body"], env)) for v, a, pat in hir.arms_by_variant(e))     # disjoint arms: order-free
-            return "match(%s){%s}" % (label(e["scrut"], env), ";".join(arms))
+            # disjoint arms: order-free.  `_ => B` and the explicit list of the remaining variants `V1 | V2 | .. => B` are one thing: the
+            # arms are grouped by body; the wildcard's group (or, without a wildcard, the largest group of at least two variants) is `_`
+            groups, wild_body = {}, None
+            for v, a, pat in hir.arms_by_variant(e):
+                bl_ = str(label(a["body"], env))
+                if v == "_":
+                    wild_body = bl_
+                else:
+                    groups.setdefault(bl_, []).append(str(v))
+            if wild_body is None and groups:
+                big = max(groups.items(), key=lambda kv: (len(kv[1]), kv[0]))
+                if len(big[1]) >= 2:
+                    wild_body = big[0]
+            arms = []
+            for bl_, vs_ in groups.items():
+                if bl_ == wild_body:
+                    continue
+                arms += ["%s=>%s" % (v, bl_) for v in vs_]
+            if wild_body is not None:
+                arms.append("_=>%s" % wild_body)
+            return "match(%s){%s}" % (label(e["scrut"], env), ";".join(sorted(arms)))
         except Unrecognised:
             return "<Match>"
     if e["k"] == "Closure":
@@ -157,6 +176,10 @@ class Emit:
                 out.append(fj)
                 skip.update((si_ + 1, si_ + 2))
                 continue
+            if s["k"] == "Let" and s["pat"].get("k") == "Wild" and s.get("init") is not None and not s.get("els"):
+                # `let _ = sink.push_str(x);` (the expansion of `manipulate!(out => .push_str(x))`) is the statement `sink.push_str(x);`
+                out += self.stmt_expr(s["init"], env, depth, owner)
+                continue
             if s["k"] == "Let":
                 if s["pat"]["k"] == "Slice" and s.get("init") is not None and strip(s["init"])["k"] == "Array" and not s["pat"].get("slice") \
                         and len(s["pat"].get("before", [])) + len(s["pat"].get("after", []) or []) == len(strip(s["init"])["elems"]):
@@ -164,6 +187,18 @@ class Emit:
                     for q, el_ in zip(list(s["pat"].get("before", [])) + list(s["pat"].get("after", []) or []), strip(s["init"])["elems"]):
                         if q.get("k") == "Binding":
                             env[q["name"]] = label(el_, env)
+                    continue
+                if s["pat"]["k"] == "Tuple" and s.get("init") is not None and strip(s["init"])["k"] == "Match" \
+                        and all(strip(hir.last_expr(a_["body"]))["k"] == "Tup" and len(strip(hir.last_expr(a_["body"]))["elems"]) == len(s["pat"]["pats"])
+                                for a_ in strip(s["init"])["arms"]):
+                    # `let (p, c) = match x { V => (A, B), .. };` is `let p = match x { V => A, .. }; let c = match x { V => B, .. };`
+                    m_ = strip(s["init"])
+                    for i_, q in enumerate(s["pat"]["pats"]):
+                        while q.get("k") in ("Ref", "Box", "Deref"):
+                            q = q["pat"]
+                        if q.get("k") == "Binding":
+                            comp = dict(m_, arms=[dict(a_, body=strip(hir.last_expr(a_["body"]))["elems"][i_]) for a_ in m_["arms"]])
+                            env[q["name"]] = label(comp, env)
                     continue
                 if s["pat"]["k"] == "Tuple" and s.get("init") is not None:
                     # `let (left, right) = brackets;` -- each binding is that component of the bound value
